@@ -99,6 +99,8 @@ def run(chk):
     # loans of equal size repaid by an auto-repay order that cannot afford them all: ties must break the same way every run
     cases += [xg.gen_case(rnd, "cancelrepay" if i % 2 else "equalloans", "small")
               for i in range(common.tier_n(chk.tier, 12, 100))]
+    # both orientations of a market, symbols that have no price yet: conversions must not depend on set / dict order
+    cases += [xg.gen_case(rnd, ["inverse", "noprice", "margin"][i % 3], "small") for i in range(common.tier_n(chk.tier, 18, 150))]
     # strategies that decide from what they read back (get_balances) and react to their own fills
     cases += [xg.gen_case(rnd, "adaptive", "small") for i in range(common.tier_n(chk.tier, 24, 200))]
     items, owners = [], []
